@@ -4,6 +4,8 @@ import (
 	"math/big"
 	"testing"
 
+	"github.com/bytemare/secp256k1"
+
 	"github.com/bytemare/secp256k1/verifharness/gen"
 	"github.com/bytemare/secp256k1/verifharness/ref"
 	"pgregory.net/rapid"
@@ -13,12 +15,34 @@ import (
 
 type caseC14 struct {
 	S SV `json:"s"`
+	// Noise selects other API calls made just before Bits (on unrelated objects): what they leave behind in the package must
+	// not matter.
+	Noise int `json:"noise,omitempty"`
+}
+
+func apiNoise(k int) {
+	switch k {
+	case 1:
+		secp256k1.Base().Multiply(secp256k1.NewScalar().One())
+	case 2:
+		secp256k1.Base().Multiply(secp256k1.NewScalar().MinusOne())
+	case 3:
+		_ = secp256k1.NewScalar().MinusOne().Bits()
+	case 4:
+		secp256k1.Base().Multiply(secp256k1.NewScalar())
+	case 5:
+		secp256k1.NewScalar().SetUInt64(3).Pow(secp256k1.NewScalar().SetUInt64(5))
+	}
 }
 
 var c14 = gen.Register(&gen.Check[caseC14]{
 	Name: "C14/bits",
 	Gen: func(t *rapid.T) caseC14 {
-		return caseC14{S: SVGen().Draw(t, "s")}
+		c := caseC14{S: SVGen().Draw(t, "s")}
+		if gen.Chance(t, "noise", 1, 3) {
+			c.Noise = 1 + gen.Pick(t, "noiseKind", 5)
+		}
+		return c
 	},
 	Fixed: func() []caseC14 {
 		var out []caseC14
@@ -29,6 +53,9 @@ var c14 = gen.Register(&gen.Check[caseC14]{
 			new(big.Int).Lsh(big.NewInt(1), 63), new(big.Int).Lsh(big.NewInt(1), 64), new(big.Int).Lsh(big.NewInt(1), 128),
 		} {
 			out = append(out, caseC14{S: SV{Hex: gen.H(v)}})
+			for k := 1; k <= 5; k++ {
+				out = append(out, caseC14{S: SV{Hex: gen.H(v)}, Noise: k})
+			}
 		}
 		// exhaustive over limb-pattern products, canonical and Montgomery
 		for _, m := range gen.WordProducts(new(big.Int), 64, func(w, mask uint64) []uint64 { return gen.LimbPatterns }) {
@@ -46,6 +73,8 @@ var c14 = gen.Register(&gen.Check[caseC14]{
 		o.ClassIf(want.Bit(255) == 1, "bit255")
 		o.ClassIf(c.S.Mont, "mont-domain")
 		o.ClassIf(c.S.Hist > 0, "used-object")
+		apiNoise(c.Noise)
+		o.ClassIf(c.Noise > 0, "after-other-calls")
 		before := s.S
 		bits := s.Bits()
 		if s.S != before {
